@@ -64,7 +64,7 @@ def handleRepair : Handler := fun j a => do
   let uuid ← jStr inj "uuid"
   let tz ← jBool inj "timer_zero"
   let mc := findBestStreamFrom reasonable host cs master topo
-  let i : In := { streamFrom := ← jStr inj "stream_from", lostTimerZero := tz, candidate := mc,
+  let i : In := { streamFrom := ← jStr inj "stream_from", master := master, lostTimerZero := tz, candidate := mc,
                   changeBlindOk := ← jBool inj "change_ok", stopOk := ← jBool inj "stop_ok", fresh := fresh,
                   uuid := if uuidOk then some uuid else none, changeOk := ← jBool inj "change_ok" }
   let mActs := repairCascade host st cs i
